@@ -26,7 +26,7 @@ ASSUMPTIONS = [
     "predicates are pure functions of the offered NodeTraversalInfo",
     "reference walker (20 lines) encodes the statement: pruned nodes are offered to filter, their descendants are not visited",
 ]
-MUST_SEE = ["traversal_after_replace_with_equal_children", "falsy_callable_predicates", "positional_predicates", "late_defined_subclass", "prune_not_filter_with_desc", "falsy_children", "shared_objects", "bottom_up_with_prune", "gather_calls", "deep_chain", "deep_3000_traversals", "abandoned_traversals", "reentrant_predicates"]
+MUST_SEE = ["children_read_twice_around_caller_mutation", "children_of_slotted_instances", "traversal_after_replace_with_equal_children", "falsy_callable_predicates", "positional_predicates", "late_defined_subclass", "prune_not_filter_with_desc", "falsy_children", "shared_objects", "bottom_up_with_prune", "gather_calls", "deep_chain", "deep_3000_traversals", "abandoned_traversals", "reentrant_predicates"]
 CONFIG = {
     "quick": {"shards": 16, "small_trees": 600, "exh_n": 4, "large_trees": 300, "watchdog_s": 300},
     "thorough": {"shards": 32, "small_trees": 400, "exh_n": 6, "large_trees": 250, "watchdog_s": 3000},
@@ -223,6 +223,31 @@ def run_shard(ctx):
             id(x) for x in exp_children
         ]:
             ctx.violation("children-mismatch", "children / get_child_nodes differ from the spec's direct children", {"tree": spec_json(s)})
+
+        # the same for every node of the tree, read twice: what the caller does to the list it was handed (a work list that is
+        # popped from and extended) does not show in what the next access returns
+        for p_ in [root_pos] + list(all_pre):
+            o_ = obj[id(p_)]
+            if "children" in type(o_).__dataclass_fields__:
+                continue
+            exp_ = [id(obj[id(c)]) for c in kids_of(U, p_, cache)]
+            ctx.evaluations += 1
+            try:
+                first = o_.children
+                got1 = [id(x) for x in first]
+                first.reverse()
+                first.append(root)
+                del first[:1]
+                got2 = [id(x) for x in o_.children]
+            except Exception as e:  # noqa: BLE001
+                ctx.violation("children-raised", f"node.children raised {type(e).__name__}: {e}"[:200], {"tree": spec_json(s), "class": type(o_).__name__})
+                break
+            ctx.count("children_read_twice_around_caller_mutation")
+            if getattr(type(o_), "__slots__", None) is not None and not hasattr(o_, "__dict__"):
+                ctx.count("children_of_slotted_instances")
+            if got1 != exp_ or got2 != exp_:
+                ctx.violation("children-mismatch", "node.children differs from the spec's direct children (second read after the caller edited the first list)" if got1 == exp_ else "node.children differs from the spec's direct children", {"tree": spec_json(s), "class": type(o_).__name__})
+                break
 
         # ---- predicate sets ----
         def pred_sets():
